@@ -67,6 +67,10 @@ struct vloop_pump_info {
     uint64_t dispatched;    /* number of call-back invocations so far */
 };
 
+/* Optional observer of the objects a manager hands out: called after the allocation (alloc = 1) and before
+ * the free (alloc = 0) of every pump ("pump") and blocker ("blocker"). */
+extern void (*vloop_obj_cb)(int alloc, const char *kind, const void *p);
+
 /* Allocates a manager (pools of depth 0: every freed pump / blocker really
  * goes back to free(), so that sanitizers see stale uses).  Release it with
  * upump_mgr_release(); it is destroyed when the last pump has been freed. */
